@@ -6,6 +6,7 @@ import (
 	"context"
 	"fmt"
 	"net/netip"
+	"os"
 	"runtime"
 	"sort"
 	"sync"
@@ -13,6 +14,7 @@ import (
 	"testing/synctest"
 	"time"
 
+	"github.com/DataDog/datadog-traceroute/common"
 	"github.com/DataDog/datadog-traceroute/icmp"
 	"github.com/DataDog/datadog-traceroute/packets"
 	"github.com/DataDog/datadog-traceroute/result"
@@ -689,4 +691,100 @@ func ipidBlocksOverlap(w *Wire, parisPorts map[uint16]bool) []Diff {
 		}
 	}
 	return ds
+}
+
+// idSink / idSource: the smallest possible wire for a run that sends one probe and hears nothing.
+type idSink struct {
+	mu  *sync.Mutex
+	ids *[]uint16
+}
+
+func (s idSink) WriteTo(buf []byte, _ netip.AddrPort) error {
+	if p, err := ValidateProbe(append([]byte(nil), buf...)); err == nil && p.ICMP != nil {
+		s.mu.Lock()
+		*s.ids = append(*s.ids, p.ICMP.EchoID())
+		s.mu.Unlock()
+	}
+	return nil
+}
+func (idSink) Close() error { return nil }
+
+type idSource struct{}
+
+func (idSource) Read([]byte) (int, error) {
+	time.Sleep(200 * time.Microsecond)
+	return 0, os.ErrDeadlineExceeded
+}
+func (idSource) SetReadDeadline(time.Time) error                { return nil }
+func (idSource) SetPacketFilter(packets.PacketFilterSpec) error { return nil }
+func (idSource) Close() error                                   { return nil }
+
+// TestC11EchoIDsConcurrent: identifiers handed to runs that are created at the same moment, from a fresh
+// process-wide counter and from counters about to wrap. The interleaving inside the allocator is the
+// scheduler's, so the state "fresh counter" is visited thousands of times.
+func TestC11EchoIDsConcurrent(t *testing.T) {
+	rec := NewRecorder("C11", "C11EchoIDsConcurrent", "enumeration on the real scheduler: 4 ICMP runs created at the same moment (start barrier) from an echo-identifier counter reset to {0 = a fresh process, 0xfffe, 0x1fffd}, 1200 / 200 / 200 rounds, half of them with GOMAXPROCS(2); oracle: the 4 echo identifiers put on the wire in a round are pairwise distinct; non-trivial always")
+	rec.Exhaustive = true
+	type idCase struct {
+		Base   uint32 `json:"base"`
+		Rounds int    `json:"rounds"`
+	}
+	RunCases(t, rec, func(yield func(*idCase) bool) {
+		for _, c := range []*idCase{{0, 1200}, {0xfffe, 200}, {0x1fffd, 200}} {
+			if !yield(c) {
+				return
+			}
+		}
+	}, func(t *testing.T, c *idCase, rec *Recorder) []Diff {
+		reqMu.Lock()
+		defer reqMu.Unlock()
+		var mu sync.Mutex
+		var ids []uint16
+		packets.SetVerifHooks(&packets.VerifHooks{
+			NewSink:   func(netip.Addr) (packets.Sink, error) { return idSink{&mu, &ids}, nil },
+			NewSource: func() (packets.Source, error) { return idSource{}, nil },
+		})
+		defer packets.SetVerifHooks(nil)
+		target := netip.MustParseAddr("93.184.216.34")
+		var ds []Diff
+		for r := 0; r < c.Rounds && len(ds) == 0; r++ {
+			old := 0
+			if r%2 == 1 {
+				old = runtime.GOMAXPROCS(2)
+			}
+			icmp.VerifSetEchoIDBase(c.Base)
+			mu.Lock()
+			ids = ids[:0]
+			mu.Unlock()
+			start := make(chan struct{})
+			var wg sync.WaitGroup
+			for g := 0; g < 4; g++ {
+				wg.Add(1)
+				go func() {
+					defer wg.Done()
+					<-start
+					icmp.RunICMPTraceroute(context.Background(), icmp.Params{Target: target, ParallelParams: common.TracerouteParallelParams{
+						TracerouteParams: common.TracerouteParams{MinTTL: 1, MaxTTL: 1, TracerouteTimeout: time.Millisecond, PollFrequency: time.Millisecond, SendDelay: 0}}})
+				}()
+			}
+			close(start)
+			wg.Wait()
+			if old > 0 {
+				runtime.GOMAXPROCS(old)
+			}
+			seen := map[uint16]bool{}
+			for _, id := range ids {
+				if seen[id] {
+					ds = append(ds, Diff{"C11", "echo-id-shared", fmt.Sprintf("round %d from counter %#x: two of 4 runs created at the same moment put echo identifier %d on the wire (%v)", r, c.Base, id, ids)})
+					break
+				}
+				seen[id] = true
+			}
+			if len(ids) != 4 && len(ds) == 0 {
+				ds = append(ds, Diff{"C11", "harness", fmt.Sprintf("round %d: %d probes recorded, expected 4", r, len(ids))})
+			}
+		}
+		rec.CaseEnumerated(true, map[string]any{"base": c.Base, "rounds": c.Rounds})
+		return ds
+	})
 }
